@@ -154,7 +154,7 @@ def gen_case(rng, i, tier):
         t = body(rng, 0, kind == 'nested' or rng.random() < 0.3)
         t['$repeat'] = n
         if kind == 'badcount':
-            t['$repeat'] = rng.choice([1.5, '2', True, [2], {'a': 1.5}, {'a': '1'}])
+            t['$repeat'] = rng.choice([1.5, '2', True, [2], {'a': 1.5}, {'a': '1'}, {'a': 0, 'b': 'lots'}, {'a': 2, 'b': 0, 'c': True}, {'a': 0, 'b': 1.5}, {'a': 1, 'b': '2'}, {'b': 0, 'a': 'x'}])
         case['layers'] = [t]
         if kind == 'layered':
             case['layers'].append({'$repeat': rng.choice([x for x in range(0, 6) if x != n]), 'top': 1})
